@@ -105,7 +105,11 @@ theorem C01_connect_retry_expires_connect (s : Sess) (hp : s.proto = none) :
     (s.st = .idle → (s.fireRetry).outs = s.outs ∧ (s.fireRetry).st = .idle) := by
   constructor
   · intro hst
-    simp [fireRetry, hst, closeConn, hp, connectTcp, retryDeadline]
+    have e : ((s.setRetry none).closeConn).setRetry (some s.retryDeadline) = (s.setRetry none).setRetry (some s.retryDeadline) := by
+      simp [closeConn, hp, setRetry, withTm]
+    simp only [fireRetry, hst, e, connectTcp]
+    rw [if_pos (by simp [hst])]
+    simp [retryDeadline, setRetry, withTm, Sess.emit, withConns, withPending, hst]
   · intro hst
     simp [fireRetry, hst]
 
@@ -119,9 +123,22 @@ theorem C01_start_from_idle (s : Sess) (hst : s.st = .idle) :
       (s.fireIdleHold).tm.retry = some (s.now + 3 * s.cfg.retryT) ∧
       (s.autoStart false).st = .connect ∧ (s.autoStart false).outs = s.outs ++ [.connect s.conns.length]) := by
   constructor
-  · simp [manualStart, hst, connectTcp, retryDeadline]
+  · simp only [manualStart, hst, connectTcp]
+    rw [if_pos (by simp [Sess.setSt])]
+    simp [retryDeadline, Sess.setSt, setRetry, withTm, Sess.emit, withConns, withPending, withSt, withAllow]
   · intro ha
-    simp [fireIdleHold, autoStart, hst, ha, connectTcp, retryDeadline]
+    simp only [fireIdleHold, autoStart, hst, ha, connectTcp, st_setIdleHold, ↓reduceIte, Bool.false_eq_true]
+    have hal : (s.setIdleHold none).allowAuto = true := ha
+    simp only [hal, ↓reduceIte]
+    refine ⟨?_, ?_, ?_, ?_, ?_⟩
+    · rw [if_pos (by simp [Sess.setSt])]; simp [Sess.setSt, Sess.emit, withConns, withPending, withSt]
+    · rw [if_pos (by simp [Sess.setSt])]
+      simp [Sess.setSt, Sess.emit, withConns, withPending, withSt, setIdleHold, withTm, setRetry, incRetryCounter, withRetryCounter]
+    · rw [if_pos (by simp [Sess.setSt])]
+      simp [Sess.setSt, Sess.emit, withConns, withPending, withSt, setIdleHold, withTm, setRetry, incRetryCounter, withRetryCounter, retryDeadline]
+    · rw [if_pos (by simp [Sess.setSt])]; simp [Sess.setSt, Sess.emit, withConns, withPending, withSt]
+    · rw [if_pos (by simp [Sess.setSt])]
+      simp [Sess.setSt, Sess.emit, withConns, withPending, withSt, withTm, setRetry, incRetryCounter, withRetryCounter]
 
 /-- ManualStart is ignored while a session is up or being set up. -/
 theorem C01_manual_start_ignored (s : Sess) (hst : s.st ≠ .idle) :
@@ -215,11 +232,11 @@ theorem C01_tcp_connected (s : Sess) (i : Nat) (w : Bytes) (hlt : i < s.conns.le
 /-- Event 18 while the attempt is pending (state Connect, nothing tracked yet): the ConnectRetryTimer is
     stopped, the state is Idle and, automatic start being allowed, the restart (idle-hold) timer runs. -/
 theorem C01_tcp_fails_connect (s : Sess) (i : Nat) (hst : s.st = .connect) (hp : s.proto = none)
-    (ha : s.allowAuto = true) :
+    (ha : s.allowAuto = true) (hpend : s.pending = some i) :
     (s.connFail i).st = .idle ∧ (s.connFail i).outs = s.outs ++ [.hConnFailed] ∧
     (s.connFail i).tm.retry = none ∧ (s.connFail i).tm.idleHold = some (s.now + 3 * s.cfg.idleHoldT) := by
-  simp [connFail, connectionFailed, setPhase, setConn, hst, closeConn, hp, connectionClosed, dropEstab, ha,
-    autoStart, idleDeadline]
+  simp [connFail, hpend, connectionFailed, setPhase, setConn, hst, closeConn, hp, connectionClosed, dropEstab, ha,
+    autoStart, idleDeadline, withPending]
 
 end Yabgp
 
